@@ -3,7 +3,9 @@
 mod common;
 mod export;
 mod render;
+mod lang;
 mod c11;
+mod c06;
 
 fn main() {
     common::install_panic_hook();
@@ -12,6 +14,7 @@ fn main() {
     let rest = &args[1..];
     match args[0].as_str() {
         "c11" => c11::main(rest),
+        "c06" => c06::main(rest),
         other => { eprintln!("unknown subcommand {}", other); std::process::exit(2); },
     }
 }
